@@ -58,6 +58,7 @@ func runC05(c *Ctx) error {
 	if err := c05TreeOfCwd(c); err != nil {
 		return err
 	}
+	c05DeclaredDirectories(c, tree)
 	c05SameBaseNames(c, tree)
 	c05ConfigRoute(c, tree)
 	return c05Random(c, tree)
@@ -188,6 +189,31 @@ func c05TreeOfCwd(c *Ctx) error {
 		}
 	}
 	return nil
+}
+
+// c05DeclaredDirectories: a directory the configuration declares – with its own mode, owner and group – keeps them
+// whichever entry comes before or after it: a file beneath it, a tree whose structure passes through it.
+func c05DeclaredDirectories(c *Ctx, t *SrcTree) {
+	fam := c.Rep.Family("declared-directories", "exhaustive: a declared directory (mode 02770, owner and group set) at {a plain path, a path other packages own (/var/log), a path beneath one (/var/lib/logrotate)} listed before and after {a file beneath it, a file two levels beneath it, a tree whose structure contains it, a tree rooted at it} x 5 packagers: files.PrepareForPackager vs the model of planning and the planning spec (the declared attributes survive or the list is refused as a collision – never a silent replacement); non-trivial = always")
+	fam.Exhaustive = true
+	fi := &wire.FileInfo{Mode: 0o2770, Owner: "demo", Group: "demo", MTime: wire.ZeroTime}
+	tool := filepath.Join(t.Root, "bin/tool")
+	for _, pk := range Formats {
+		cfg := wire.PlanCfg{Packager: pk, Umask: 0o022, MTime: 1700000000}
+		for _, d := range []string{"/srv/demo/state", "/var/log", "/var/lib/logrotate", "/var/lib"} {
+			dir := wire.Content{Dst: d, Type: "dir", Info: fi}
+			others := []wire.Content{
+				{Src: tool, Dst: d + "/state.db"},
+				{Src: tool, Dst: d + "/a/b/state.db"},
+				{Src: filepath.Join(t.Root, "fsroot/var"), Dst: "/var", Type: "tree"},
+				{Src: filepath.Join(t.Root, "fsroot/var/log"), Dst: d, Type: "tree"},
+			}
+			for _, o := range others {
+				planCase(c, fam, "declared-directories", cfg, []wire.Content{dir, o}, false)
+				planCase(c, fam, "declared-directories", cfg, []wire.Content{o, dir}, false)
+			}
+		}
+	}
 }
 
 // c05SameBaseNames: one glob whose matches have the same base name in different directories, sent into a directory
